@@ -72,15 +72,16 @@ func VerifRelax() {
 	n := verifrt.Param("versions")
 	maxDigit := verifrt.Param("max_digit")
 	var universe []string
-	// one version of the universe (never the current one) may be a pre-release
-	pre := verifrt.Choice("prerelease-index", n) // 0 = none
+	// one version of the universe (possibly the current one) may be a pre-release
+	pre := verifrt.Choice("prerelease-index", n+1) - 1 // -1 = none
 	for i := 0; i < n; i++ {
 		v, _ := verifVer("version", maxDigit)
-		if i > 0 && i == pre {
+		if i == pre {
 			v += "-alpha"
 		}
 		universe = append(universe, v)
 	}
+	verifrt.TagIf(pre == 0, "C11-relax-pinned-prerelease")
 	// the current requirement names one of the versions, pinned or as a ^ / ~ range
 	cur := universe[0]
 	prefix := []string{"", "^", "~"}[verifrt.Choice("requirement-form", 3)]
